@@ -1004,6 +1004,73 @@ func (p *Prog) lookupValueIndex(lk *ssa.Call, recv ssa.Value) int {
 	return -1
 }
 
+// isAddressIndexConcat: g(sid SlabID) ValueID returns sid.address followed by sid.index: a fresh ValueID whose
+// first bytes receive copy(id[:], sid.address[:]) and whose bytes from there on receive copy(id[n:], sid.index[:]).
+func (p *Prog) isAddressIndexConcat(g *ssa.Function, addrLen int64) bool {
+	if g.Pkg != p.RootSSA || len(g.Blocks) != 1 || len(g.Params) != 1 || typeName(g.Params[0].Type()) != "SlabID" {
+		return false
+	}
+	if at, ok := g.Signature.Results().At(0).Type().Underlying().(*types.Array); !ok || at.Len() <= addrLen {
+		return false
+	}
+	var copies []*ssa.Call
+	var out *ssa.Alloc
+	okShape := true
+	for _, in := range g.Blocks[0].Instrs {
+		switch x := in.(type) {
+		case *ssa.Call:
+			if bi, ok := x.Call.Value.(*ssa.Builtin); ok && bi.Name() == "copy" {
+				copies = append(copies, x)
+			} else {
+				okShape = false
+			}
+		case *ssa.Store:
+			// only the spill of the parameter
+			if canon(x.Val) != ssa.Value(g.Params[0]) {
+				okShape = false
+			}
+		case *ssa.Return:
+			u, ok := x.Results[0].(*ssa.UnOp)
+			if !ok || u.Op != token.MUL {
+				return false
+			}
+			out, _ = u.X.(*ssa.Alloc)
+		}
+	}
+	if !okShape || len(copies) != 2 || out == nil {
+		return false
+	}
+	part := func(c *ssa.Call, field string, lowOK func(ssa.Value) bool) bool {
+		dst, ok1 := c.Call.Args[0].(*ssa.Slice)
+		src, ok2 := c.Call.Args[1].(*ssa.Slice)
+		if !ok1 || !ok2 || dst.X != ssa.Value(out) || dst.High != nil || !lowOK(dst.Low) || src.Low != nil || src.High != nil {
+			return false
+		}
+		fa, ok := src.X.(*ssa.FieldAddr)
+		if !ok {
+			return false
+		}
+		_, nm := structFieldName(fa.X.Type(), fa.Field)
+		al, ok := fa.X.(*ssa.Alloc)
+		return ok && nm == field && canon(singleStoreTo(al)) == ssa.Value(g.Params[0])
+	}
+	first := part(copies[0], "address", func(lo ssa.Value) bool {
+		if lo == nil {
+			return true
+		}
+		k, ok := cInt(lo)
+		return ok && k == 0
+	})
+	second := part(copies[1], "index", func(lo ssa.Value) bool {
+		if lo == ssa.Value(copies[0]) {
+			return true
+		}
+		k, ok := cInt(lo)
+		return lo != nil && ok && k == addrLen
+	})
+	return first && second
+}
+
 // N4 identity predicate: every method of ValueID that compares the value id with a SlabID and returns a bool is
 // true exactly when both components (address, index) are equal. The function is evaluated on the four truth
 // assignments of its two component comparisons; which half of the value id is compared with which component is
@@ -1132,6 +1199,21 @@ func ruleN4(p *Prog, r *Report) {
 					if x.Value != nil {
 						return x.Value.String() == "true", true
 					}
+				case *ssa.BinOp:
+					// vid == concat(sid): whole-array comparison with the verified address||index conversion
+					if (x.Op == token.EQL || x.Op == token.NEQ) && typeName(x.X.Type()) == "ValueID" {
+						for _, pair := range [][2]ssa.Value{{x.X, x.Y}, {x.Y, x.X}} {
+							c, ok := pair[1].(*ssa.Call)
+							if !ok || canon(pair[0]) != ssa.Value(vid) || len(c.Call.Args) != 1 || canon(c.Call.Args[0]) != ssa.Value(sid) {
+								continue
+							}
+							if g := c.Call.StaticCallee(); g != nil && p.isAddressIndexConcat(g, addrLen) {
+								return (asg[0] && asg[1]) == (x.Op == token.EQL), true
+							}
+						}
+					}
+				}
+				switch x := v.(type) {
 				case *ssa.UnOp:
 					if x.Op == token.NOT {
 						b, ok := eval(x.X, from)
@@ -1202,11 +1284,23 @@ func ruleN4(p *Prog, r *Report) {
 				break
 			}
 		}
-		if len(atoms) != 2 && bad == "" {
-			bad = fmt.Sprintf("%d component comparisons found, expected address and index", len(atoms))
-		}
+		// (a predicate that agrees with "address and index equal" on all four assignments involves both components)
 		r.Decide(bad == "", R, cons, p.Pos(f.Pos()), "true exactly when address and index both match", "the identity test between a container's value id and a slab id is wrong: "+bad+"; a stale handle could be taken for the element that now occupies its slot")
 	}
+	// the conversion the identity is defined by: every SlabID -> ValueID function of the package is address || index
+	nConv := 0
+	if addrLen, ok := p.constVal("SlabAddressLength"); ok {
+		for _, f := range p.TopFuncs() {
+			if f.Signature.Recv() != nil || len(f.Params) != 1 || f.Signature.Results().Len() != 1 || typeName(f.Params[0].Type()) != "SlabID" || typeName(f.Signature.Results().At(0).Type()) != "ValueID" {
+				continue
+			}
+			nConv++
+			r.Decide(p.isAddressIndexConcat(f, addrLen), R, "value-id-conversion:"+p.Name(f), p.Pos(f.Pos()),
+				"the value id of a slab id is its address followed by its index, each copied whole",
+				"the SlabID to ValueID conversion is not the concatenation of the whole address and the whole index: value ids no longer identify slabs one to one, and the identity test against a slab id answers wrongly")
+		}
+	}
+	r.Floor(R, "SlabID to ValueID conversions", 1, nConv)
 	r.Floor(R, "value id / slab id identity predicates", 1, n)
 }
 
